@@ -4,7 +4,7 @@ transformers, R5 delay-line push / roll effects, DIV0 integer divisors."""
 import json, os, re
 import re
 import sympy as sp
-import symx, alg, looptx, consts, llir, irx, effects, path
+import symx, alg, looptx, consts, llir, irx, effects, path, counted
 from symx import Ptr, Unsupported, TOP
 
 LEVEL = 'other'
@@ -679,6 +679,27 @@ def norm_loops(ctx, name, table):
 
 
 # ---------------------------------------------------------------- R4
+def _elements(cn, dom, e, bases, strides):
+    """the entry cells an expression reads -> {cell symbol: canonical element symbol}; cells are read at step t iff
+    their offset is 8 * stride * t under the induction"""
+    out = {}
+    seen = {}
+    for s in sp.sympify(e).free_symbols:
+        bo = dom.entry_off.get(s.name)
+        if bo is None or bo[0] not in bases:
+            continue
+        b = bo[0]
+        if b in seen:
+            raise Unsupported('two cells of %s per step' % b)
+        seen[b] = s
+        want = 8 * strides[bases.index(b)] * cn.t
+        got = cn.at(bo[1])
+        if not alg.is_zero(got - want):
+            return None, 'step t reads %s at byte offset %s, expected %s' % (b, got.subs(cn.t, sp.Symbol('t')), want.subs(cn.t, sp.Symbol('t')))
+        out[s] = sp.Symbol('E_' + b, real=True)
+    return out, None
+
+
 def reductions(ctx, table):
     rep = ctx.rep
     # name -> (pointer params, stride params, term builder)
@@ -699,7 +720,7 @@ def reductions(ctx, table):
             dom = RDom(table)
             n = dom.sym('n', integer=True, nonnegative=True)
             bases = ['P', 'Q'][:np_]
-            strides = [dom.sym('c%d' % k, integer=True, positive=True) for k in range(np_)]
+            strides = [dom.sym('c%d' % k, integer=True, positive=True) if strided else sp.Integer(1) for k in range(np_)]
             if name in ('a_real_sum_', 'a_real_sum1_', 'a_real_sum2_', 'a_real_mean_'):
                 args = [n, Ptr('P', 0), strides[0]]
             elif name == 'a_real_dot_':
@@ -708,55 +729,75 @@ def reductions(ctx, table):
                 args = [n, Ptr('P', 0), Ptr('Q', 0)]
             else:
                 args = [n, Ptr('P', 0)]
-            roles = {}
+            cnt = [0]
 
-            def bind(ph, init, dom=dom, roles=roles):
+            def bind(ph, init, dom=dom, cnt=cnt):
+                cnt[0] += 1
                 if ph.ty.is_ptr:
-                    roles[init.base] = ph.res
-                    return Ptr(init.base, dom.sym('o' + init.base, integer=True))
+                    if not isinstance(init, Ptr):
+                        raise Unsupported('pointer loop variable without a base')
+                    return Ptr(init.base, dom.sym('o%d' % cnt[0], integer=True))
                 if ph.ty.is_fp:
-                    roles['r'] = ph.res
                     return dom.sym('Racc', real=True)
-                roles['n'] = ph.res
-                return dom.sym('k', integer=True, nonnegative=True)
+                return dom.sym('k%d' % cnt[0], integer=True)
             tx = looptx.transformer(fn, lookup_in([fn.module]), args, dom, bind)
-            if len(tx.backs) not in (1, 2):
-                raise Unsupported('%d back paths' % len(tx.backs))
+            cn, acc = counted.from_alg(tx, n)
+            if acc is None:
+                raise Unsupported('no accumulator')
+            if tx.finals is None or not tx.finals:
+                raise Unsupported('no path from the loop to the return')
+            if cn.lo not in (0, 1):
+                raise Unsupported('the loop is reached for n >= %d only' % cn.lo)
+            Racc = tx.sym[acc]
+            E = [sp.Symbol('E_' + b, real=True) for b in bases]
+            want_term = term(E, n)
             probs = []
-            Racc = tx.sym[roles['r']]
-            for s1, nv in tx.backs:
-                els = []
-                for k, b in enumerate(bases):
-                    o = tx.sym[roles[b]].off
-                    els.append(dom.sym('%s[%s]' % (b, dom.off_key(o)), real=True))
-                    stp = 8 * (strides[k] if strided else 1)
-                    if not alg.is_zero(sp.sympify(nv[roles[b]].off) - o - stp):
-                        probs.append('cursor %s advances by %s bytes, expected %s' % (b, sp.expand(sp.sympify(nv[roles[b]].off) - o), stp))
-                aux = n
-                want = Racc + term(els, aux)
-                got = sp.sympify(nv[roles['r']])
-                # A_ABS forks: |e| is e or -e depending on the path
-                if not alg.is_zero(sp.simplify(got - want)):
-                    alt = False
-                    if isinstance(term(els, aux), sp.Abs):
-                        neg = any(isinstance(cc, alg.Cond) and cc.rel() == '<' and sp.sympify(cc.a) == els[0] for cc in s1.pc)
-                        alt = alg.is_zero(got - (Racc + (-els[0] if neg else els[0])))
-                    if not alt:
-                        probs.append('accumulator <- %s, expected %s' % (got, want))
-                if not alg.is_zero(nv[roles['n']] - tx.sym[roles['n']] + 1):
-                    probs.append('count <- %s' % nv[roles['n']])
-                if not any(isinstance(cc, alg.Cond) and cc.rel() == '!=' and sp.sympify(cc.a) == tx.sym[roles['n']] and sp.sympify(cc.b) == 0 for cc in s1.pc):
-                    probs.append('guard is not count != 0')
-            if not alg.is_zero(sp.sympify(tx.init[roles['r']])):
-                probs.append('accumulator starts at %s' % tx.init[roles['r']])
-            if tx.init[roles['n']] != n:
-                probs.append('count starts at %s' % tx.init[roles['n']])
-            if not tx.finals or any(r != Racc for s_, r in tx.finals):
-                probs.append('does not return the accumulator')
+
+            def added(st, got, what):
+                """how many terms the path adds to the accumulator: 0, 1 or None (reported)"""
+                got = sp.sympify(got)
+                diff = sp.expand(got - Racc)
+                if Racc in diff.free_symbols:
+                    probs.append('%s: accumulator <- %s' % (what, got))
+                    return None
+                if alg.is_zero(diff):
+                    return 0
+                m, why = _elements(cn, dom, diff, bases, strides)
+                if m is None:
+                    probs.append(why)
+                    return None
+                if len(m) != len(bases):
+                    probs.append('%s: adds %s, expected %s' % (what, diff, want_term))
+                    return None
+                dd = diff.subs(m, simultaneous=True)
+                ok_ = alg.is_zero(sp.simplify(dd - want_term))
+                if not ok_ and isinstance(want_term, sp.Abs):
+                    sgn = None
+                    for cc in st.pc:
+                        if isinstance(cc, alg.Cond) and cc.kind == 'fcmp':
+                            a_, b_ = sp.sympify(cc.a).subs(m, simultaneous=True), sp.sympify(cc.b).subs(m, simultaneous=True)
+                            r_ = cc.rel()
+                            if b_ == E[0] and a_ == 0:
+                                a_, b_, r_ = b_, a_, {'<': '>', '>': '<', '<=': '>=', '>=': '<='}.get(r_, r_)
+                            if a_ == E[0] and b_ == 0:
+                                sgn = {'<': -1, '<=': -1, '>': 1, '>=': 1}.get(r_)
+                    ok_ = sgn is not None and alg.is_zero(dd - sgn * E[0])
+                if not ok_:
+                    probs.append('%s: adds %s, expected %s' % (what, dd, want_term))
+                    return None
+                return 1
+            probs += cn.verdicts([(counted.alg_conds(s1.pc, cn.psyms), added(s1, nv[acc], 'repeating pass')) for s1, nv in tx.backs],
+                                 [(counted.alg_conds(s_.pc, cn.psyms), added(s_, r, 'leaving pass')) for s_, r in tx.finals])
+            if not alg.is_zero(sp.sympify(tx.init[acc])):
+                probs.append('accumulator starts at %s' % tx.init[acc])
+            for s_, r in tx.pre_rets:
+                if not alg.is_zero(sp.sympify(r)):
+                    probs.append('returns %s for n < %d' % (r, cn.lo))
             if probs:
                 rep.bad('R4', name, '; '.join(sorted(set(probs))[:3]), loc=loc, key='%s: reduction' % name)
             else:
-                rep.ok('R4', name, 'r += %s over exactly n elements%s; returns r' % (term([sp.Symbol('p[i]'), sp.Symbol('q[i]')], sp.Symbol('n')), ' with the given strides' if strided else ''),
+                rep.ok('R4', name, 'r += %s over exactly n elements%s (induction on the loop variables, guard decided on the remaining count); returns r'
+                       % (term([sp.Symbol('p[i]'), sp.Symbol('q[i]')], sp.Symbol('n')), ' with the given strides' if strided else ''),
                        loc=loc, sample={'fn': name})
         except Unsupported as e:
             rep.unk('R4', name, str(e))
@@ -797,54 +838,84 @@ def reductions(ctx, table):
             dom = RDom(table)
             n = dom.sym('n', integer=True, nonnegative=True)
             v = dom.sym('v', real=True)
-            c1, c2 = dom.sym('c1', integer=True, positive=True), dom.sym('c2', integer=True, positive=True)
+            strided = name in ('a_real_copy_', 'a_real_swap_')
+            c1 = dom.sym('c1', integer=True, positive=True) if strided else sp.Integer(1)
+            c2 = dom.sym('c2', integer=True, positive=True) if strided else sp.Integer(1)
             args = {'a_real_copy_': [n, Ptr('D', 0), c1, Ptr('S', 0), c2], 'a_real_swap': [n, Ptr('D', 0), Ptr('S', 0)],
                     'a_real_swap_': [n, Ptr('D', 0), c1, Ptr('S', 0), c2], 'a_real_fill': [n, Ptr('D', 0), v], 'a_real_zero': [n, Ptr('D', 0)]}[name]
-            roles = {}
+            cnt = [0]
 
-            def bind(ph, init, dom=dom, roles=roles):
+            def bind(ph, init, dom=dom, cnt=cnt):
+                cnt[0] += 1
                 if ph.ty.is_ptr:
-                    roles[init.base] = ph.res
-                    return Ptr(init.base, dom.sym('o' + init.base, integer=True))
-                roles['n'] = ph.res
-                return dom.sym('k', integer=True, nonnegative=True)
+                    if not isinstance(init, Ptr):
+                        raise Unsupported('pointer loop variable without a base')
+                    return Ptr(init.base, dom.sym('o%d' % cnt[0], integer=True))
+                if ph.ty.is_fp:
+                    raise Unsupported('floating-point loop variable')
+                return dom.sym('k%d' % cnt[0], integer=True)
             tx = looptx.transformer(fn, lookup_in([fn.module]), args, dom, bind)
-            if len(tx.backs) != 1:
-                raise Unsupported('%d back paths' % len(tx.backs))
-            s1, nv = tx.backs[0]
+            cn, _acc = counted.from_alg(tx, n)
+            if tx.finals is None or not tx.finals:
+                raise Unsupported('no path from the loop to the return')
+            if cn.lo not in (0, 1):
+                raise Unsupported('the loop is reached for n >= %d only' % cn.lo)
             probs = []
-            oD = tx.sym[roles['D']].off
-            st = {k: val for k, val in s1.store.items() if k[0] in ('D', 'S')}
-            dcell = ('D', dom.off_key(oD))
-            if kind in ('copy', 'swap'):
-                oS = tx.sym[roles['S']].off
-                scell = ('S', dom.off_key(oS))
-                sD = dom.sym('D[%s]' % dom.off_key(oD), real=True)
-                sS = dom.sym('S[%s]' % dom.off_key(oS), real=True)
-                if st.get(dcell, (None,))[0] != sS:
-                    probs.append('destination cell receives %s' % (st.get(dcell),))
-                if kind == 'swap' and st.get(scell, (None,))[0] != sD:
-                    probs.append('source cell receives %s' % (st.get(scell),))
-                if kind == 'copy' and scell in st:
-                    probs.append('copy writes the source')
-                s_step = 8 * (c2 if name.endswith('_') else 1)
-                if not alg.is_zero(sp.sympify(nv[roles['S']].off) - oS - s_step):
-                    probs.append('source cursor step')
-            else:
-                want = v if kind == 'fill' else 0
-                if dcell not in st or not alg.is_zero(sp.sympify(st[dcell][0]) - want):
-                    probs.append('cell receives %s, expected %s' % (st.get(dcell), want))
-            d_step = 8 * (c1 if name in ('a_real_copy_', 'a_real_swap_') else 1)
-            if not alg.is_zero(sp.sympify(nv[roles['D']].off) - oD - d_step):
-                probs.append('destination cursor step')
-            if not alg.is_zero(nv[roles['n']] - tx.sym[roles['n']] + 1):
-                probs.append('count step')
-            if len(st) != (2 if kind == 'swap' else 1):
-                probs.append('%d cells written per element' % len(st))
+            stride = {'D': c1, 'S': c2}
+
+            def cell_of(val, base):
+                """is val the entry content of base at step t?"""
+                if not isinstance(val, sp.Symbol):
+                    return False
+                bo = dom.entry_off.get(val.name)
+                return bo is not None and bo[0] == base and alg.is_zero(cn.at(bo[1]) - 8 * stride[base] * cn.t)
+
+            def effect(st, what):
+                """how many elements the path handles: 0, 1 or None (reported)"""
+                W = {k: val for k, val in st.store.items() if k[0] in ('D', 'S') and tx.pre.store.get(k) != val}
+                if not W:
+                    return 0
+                seen = {}
+                for k, (val, ty) in W.items():
+                    if k[0] in seen:
+                        raise Unsupported('two cells of %s written per step' % k[0])
+                    seen[k[0]] = val
+                    got = cn.at(st.offs[k])
+                    if not alg.is_zero(got - 8 * stride[k[0]] * cn.t):
+                        probs.append('step t writes %s at byte offset %s, expected %s' % (k[0], got.subs(cn.t, sp.Symbol('t')), 8 * stride[k[0]] * sp.Symbol('t')))
+                        return None
+                if 'D' not in seen:
+                    probs.append('%s: the destination is not written' % what)
+                    return None
+                if kind == 'copy':
+                    if 'S' in seen:
+                        probs.append('copy writes the source')
+                        return None
+                    if not cell_of(seen['D'], 'S'):
+                        probs.append('destination cell receives %s' % (seen['D'],))
+                        return None
+                elif kind == 'swap':
+                    if not cell_of(seen['D'], 'S'):
+                        probs.append('left cell receives %s' % (seen['D'],))
+                        return None
+                    if 'S' not in seen or not cell_of(seen['S'], 'D'):
+                        probs.append('right cell receives %s' % (seen.get('S'),))
+                        return None
+                else:
+                    want = v if kind == 'fill' else 0
+                    if not alg.is_zero(sp.sympify(seen['D']) - want):
+                        probs.append('cell receives %s, expected %s' % (seen['D'], want))
+                        return None
+                return 1
+            probs += cn.verdicts([(counted.alg_conds(s1.pc, cn.psyms), effect(s1, 'repeating pass')) for s1, nv in tx.backs],
+                                 [(counted.alg_conds(s_.pc, cn.psyms), effect(s_, 'leaving pass')) for s_, r in tx.finals])
+            for s_, r in tx.pre_rets:
+                if any(k[0] in ('D', 'S') for k in s_.store):
+                    probs.append('writes for n < %d' % cn.lo)
             if probs:
                 rep.bad('R4', name, '; '.join(sorted(set(probs))[:3]), loc=loc, key='%s: element-wise' % name)
             else:
-                rep.ok('R4', name, '%s of exactly n elements, one cell per step' % kind, loc=loc)
+                rep.ok('R4', name, '%s of exactly n elements, one cell per step (induction on the loop variables, guard decided on the remaining count)' % kind, loc=loc)
         except Unsupported as e:
             rep.unk('R4', name, str(e))
 
